@@ -72,6 +72,11 @@ def run_chain(ctx):
         for _ in range(rng.randint(1, 10)):
             k = rng.choice(['lin_inc', 'lin_abs', 'circ', 'arc_bend', 'arc_coupler', 'arc_mzi', 'sin_bridge', 'sin_bend', 'sin_comp', 'sin_dispx',
                             'sin_coupler', 'sin_mzi', 'spline', 'spline_bridge'])
+            if rng.random() < 0.15:
+                # the object's own radius is reassigned in mid-chain: later segments without a per-call radius must use the new one
+                r_attr = rng.choice([v for v in (15.0, 30.0, 5.0, 0.5, 100.0) if v != r_attr])
+                wg.radius = r_attr
+                ctx.count('chain.history', 'radius-reassigned')
             r = rng.choice([None, None, 15.0, 40.0, 1.0, 0.05, 500.0])
             rr = r if r is not None else r_attr
             dy = rng.choice([0.08, -0.08, 0.04, -0.3, 0.0365, 1.0, -1.9]) * (1 if rr >= 1 else 0.01)
